@@ -232,6 +232,9 @@ type GuardSpec struct {
 	Field string
 	Mutex string
 	Tags  []string
+	// Pointee != nil: "guarded pointee T by Owner.Mutex": objects of type T are written only with the
+	// receiver's mutex write-held (objects allocated during the call excepted until they are stored)
+	Pointee *SType
 }
 
 type AxiomSpec struct {
@@ -991,6 +994,23 @@ func parseSpecLines(path string, lines []string, lineNos []int) (*SpecFile, erro
 			lx.next()
 			g := &GuardSpec{Pos: SPos{path, t.line}}
 			g.Tags = p.parseTags()
+			if lx.isID("pointee") {
+				lx.next()
+				if g.Pointee, err = p.parseType(); err != nil {
+					return nil, err
+				}
+				if !lx.isID("by") {
+					return nil, p.errf("expected 'by'")
+				}
+				lx.next()
+				a := lx.next().val
+				lx.expect(".")
+				g.Owner = &SType{Kind: "name", Name: a}
+				g.Mutex = lx.next().val
+				sf.Guards = append(sf.Guards, g)
+				cur, curLoop = nil, nil
+				continue
+			}
 			a := lx.next().val
 			lx.expect(".")
 			b := lx.next().val
